@@ -139,6 +139,23 @@ def decodeResp (c : Codecs) (r : Resp) : Option Bytes :=
   | some k => c.dec k r.body.bytes
   | none => some r.body.bytes
 
+/-! ### the copy loop behind the streamed compressors
+
+`compress{Gzip,Deflate,Brotli,Zstd}BodyStream` hand the body stream to `copyBodyStream`, whose Read loop is `copyBuffer`
+(io.WriterTo streams are delegated to their WriteTo). A stream is the list of its Read results `(bytes, err)`. -/
+
+inductive RdErr | none | eof | fail
+  deriving DecidableEq, Repr
+
+/-- http.go copyBuffer: `nr, er := src.Read(buf); if nr > 0 { dst.Write(buf[:nr]) }; if er != nil { … break }` — the bytes of a
+    Read are consumed BEFORE its error is looked at. Result: what reached the compressor, and whether an error is returned
+    (io.EOF is not an error). -/
+def copyBuffer : List (Bytes × RdErr) → Bytes × Bool
+  | [] => ([], false)
+  | (d, .none) :: rest => let r := copyBuffer rest; (d ++ r.1, r.2)
+  | (d, .eof) :: _ => (d, false)
+  | (d, .fail) :: _ => (d, true)
+
 /-- compress.go normalizeCompressLevel (index into the pool maps) -/
 def normalizeCompressLevel (level : Int) : Int := (if level < -2 ∨ level > 9 then 6 else level) + 2
 /-- brotli.go normalizeBrotliCompressLevel (CompressBrotliDefaultCompression = 4) -/
